@@ -36,6 +36,9 @@ CLAIMED = {
     "C12": ("exploration", "runtime monitor: step-by-step executable reference model of header bits and ADR back-off over long histories; uplinks decoded by the reference codec",
             "Histories of 100-600 uplinks per region/front-end with downlinks placed around n=64/96/128, confirmed/rejected/Class C downlinks, ADR toggles and rate overrides; DevAddr, MType, ACK, ADR, ADRACKReq and data rate compared at every uplink.",
             "n-dependent comparisons suspended between an ADR toggle and the next accepted downlink; two model states while the statement leaves n open by one (Class C downlink before the uplink's own windows).", "6/C12"),
+    "C13": ("exploration", "differential runtime monitor: lora-phy RadioKind implementations vs Semtech's C reference driver (SWL2001 via smtc-modem-cores FFI) on identical recording SPI models; valgrind memcheck leg on the FFI binary",
+            "For every shared operation and legal parameter value the SX126x wire transcripts (trailing NOPs trimmed) and the SX127x chip-visible outcome (final register file from a random prior, FIFO, IRQ clears) are compared; documented errata/structural divergences are mirrored on the reference side exactly as the drivers' comments/tests state.",
+            "Oracle = vendor C driver; mirrors and uncompared registers listed in evidence assumptions; values the reference cannot express are counted, not compared.", "6/C13"),
     "C15": ("exploration", "exhaustive differential runtime monitor: calculator and every driver's LDRO decision vs exact-rational 16.38 ms rule, plus the bit actually written on SPI decoded by an independent chip decoder",
             "All 8 SF x 10 BW cells x 6 chip variants x coding rates x two frequency bands, exhaustive in both tiers.",
             "One cell (SF8/15.6 kHz) is set-valued for the reference but must be identical across implementations; datasheet register/command layout for decoding the written bit.", "6/C15"),
